@@ -151,8 +151,9 @@ Proof.
     assert (S2 : strat s2 = strat s) by (unfold s2; destruct (worker (set_pend [] s)); reflexivity).
     pose proof (fr_strat _ _ (hs_frame _ _ (exec_actions_hstep InConstruct (body p 0) s2))) as S3.
     destruct (exec_actions InConstruct s2 (body p 0)) as [s3 failed]. cbn [fst] in *.
+    destruct failed; [ssimpl; congruence|].
     set (s5 := set_ps PInit _).
-    assert (S5 : strat s5 = strat s3) by (unfold s5; destruct failed; reflexivity).
+    assert (S5 : strat s5 = strat s3) by (unfold s5; reflexivity).
     destruct (r_warm r <? clock s5); ssimpl; congruence.
   - destruct (rep s); auto.
   - unfold do_step. destruct (step_checks s); auto. cbv zeta. cbn [fst]. ssimpl.
